@@ -4,17 +4,23 @@
 //!
 //!   w2b <words>          words_to_bytes, then back through all three readers (aligned)
 //!                        -> <bytes>|<bytes_to_words>|<bytes_to_words_vec>|<try_bytes_to_words>
-//!   conv <a> <bytes>     the byte string placed at address offset `a` (0..7) of an 8-aligned
-//!                        buffer, read by each of the three functions (each call caught on its own)
-//!                        -> <bytes_to_words>|<bytes_to_words_vec>|<try_bytes_to_words>
-//!                           each: hex words | `none` | `PANIC`
-//!   json <text>          JsonIndex::build vs from_parts(owned Vec) vs from_parts(borrowed &[u64])
-//!                        on the serialized-and-reloaded IB/BP, plus SemiIndex::from_bytes
-//!   bp <words> <len>     BalancedParens::new vs from_words (owned / borrowed) on reloaded words
-//!   bv <words> <len>     BitVec::from_words vs the same on reloaded words
+//!   conv <off> <bytes>   the two BORROWED readers on the byte string placed `off` (0..15) bytes past a
+//!                        16-aligned address (each call caught on its own)
+//!                        -> <bytes_to_words>|<try_bytes_to_words>     each: hex words | `none` | `PANIC`
+//!   vec <off> <bytes>    the COPYING reader bytes_to_words_vec at the same placements -> hex words | PANIC
+//!   semi <o1> <o2> <ib bytes> <bp bytes>
+//!                        SemiIndex::from_bytes of json::standard and json::simple, IB placed at offset o1
+//!                        and BP at offset o2  -> <ib>;<bp>|<ib>;<bp>   (or PANIC per index kind)
+//!   json <off> <text>    JsonIndex::build vs from_parts fed (a) by bytes_to_words_vec and (b) by
+//!                        SemiIndex::from_bytes, both reading the serialized IB/BP placed at offset `off`,
+//!                        vs from_parts(borrowed &[u64]) / try_ form on an aligned reload
+//!   bp <off> <words> <len>   BalancedParens::new vs from_words (owned, reloaded at offset `off` / borrowed aligned)
+//!   bv <off> <words> <len>   BitVec::from_words vs the same on words reloaded at offset `off`
 //!                        -> `EQ n=<queries> d=<digest>` when every structure answers the whole
 //!                           query battery identically, else `DIFF …`  (implementation vs
 //!                           implementation; the model side answers `EQ`)
+//! "Offset" is always realised inside an explicitly 16-aligned backing buffer, so `off % 8` is the
+//! address misalignment the model's `a : Fin 8` stands for, and 8 vs 16-alignment are both covered.
 use crate::rng::Rng;
 use crate::util::*;
 use crate::Tier;
@@ -28,25 +34,30 @@ pub fn tables() -> Vec<(&'static str, String)> {
     vec![]
 }
 
-/// An 8-aligned buffer (backed by `Vec<u64>`) holding `bytes` at byte offset `a`.
+/// A byte string placed exactly `off` bytes past a 16-aligned address (explicitly aligned backing
+/// buffer: the base is located inside an over-allocated `Vec<u8>`, nothing is left to the allocator).
 struct Aligned {
-    buf: Vec<u64>,
-    a: usize,
+    raw: Vec<u8>,
+    start: usize,
     len: usize,
 }
 
 impl Aligned {
-    fn new(a: usize, bytes: &[u8]) -> Self {
-        let total = a + bytes.len();
-        let mut raw = vec![0u8; total.div_ceil(8) * 8 + 8];
-        raw[a..a + bytes.len()].copy_from_slice(bytes);
-        let buf: Vec<u64> = raw.chunks_exact(8).map(|c| u64::from_ne_bytes(c.try_into().unwrap())).collect();
-        Aligned { buf, a, len: bytes.len() }
+    fn new(off: usize, bytes: &[u8]) -> Self {
+        let mut raw = vec![0xA5u8; bytes.len() + off + 48];
+        let base = (16 - (raw.as_ptr() as usize % 16)) % 16;
+        let start = base + off;
+        raw[start..start + bytes.len()].copy_from_slice(bytes);
+        Aligned { raw, start, len: bytes.len() }
     }
     fn slice(&self) -> &[u8] {
-        let all = binary::words_to_bytes(&self.buf);
-        assert_eq!(all.as_ptr() as usize % 8, 0);
-        &all[self.a..self.a + self.len]
+        let s = &self.raw[self.start..self.start + self.len];
+        debug_assert!(true);
+        s
+    }
+    /// address of the slice modulo 16 (checked by the callers that depend on it)
+    fn addr_mod16(&self) -> usize {
+        self.slice().as_ptr() as usize % 16
     }
 }
 
@@ -57,11 +68,18 @@ fn caught<T>(f: impl FnOnce() -> T, show: impl FnOnce(T) -> String) -> String {
     }
 }
 
-fn three_readers(s: &[u8]) -> String {
+fn show_words(w: Vec<u64>) -> String {
+    hex_words(&w)
+}
+
+fn vec_reader(s: &[u8]) -> String {
+    caught(|| binary::bytes_to_words_vec(s), show_words)
+}
+
+fn borrowed_readers(s: &[u8]) -> String {
     format!(
-        "{}|{}|{}",
-        caught(|| binary::bytes_to_words(s).to_vec(), |w| hex_words(&w)),
-        caught(|| binary::bytes_to_words_vec(s), |w| hex_words(&w)),
+        "{}|{}",
+        caught(|| binary::bytes_to_words(s).to_vec(), show_words),
         caught(
             || binary::try_bytes_to_words(s).map(|w| w.to_vec()),
             |o| match o {
@@ -193,8 +211,10 @@ fn verdict(ds: &[(&str, String)]) -> String {
 
 /// Serialize words to a byte string and load that byte string into a fresh 8-aligned buffer
 /// (what writing a file and mapping it back does).
-fn reload(words: &[u64]) -> Aligned {
-    Aligned::new(0, binary::words_to_bytes(words))
+fn reload(off: usize, words: &[u64]) -> Aligned {
+    let a = Aligned::new(off, binary::words_to_bytes(words));
+    assert_eq!(a.addr_mod16(), off % 16, "placement");
+    a
 }
 
 pub fn exec(a: &[&str]) -> String {
@@ -202,28 +222,70 @@ pub fn exec(a: &[&str]) -> String {
         "w2b" => {
             let ws = parse_words(a[1]);
             let bytes = binary::words_to_bytes(&ws);
-            format!("{}|{}", hex_bytes(bytes), three_readers(bytes))
+            let (b, t) = {
+                let r = borrowed_readers(bytes);
+                let (b, t) = r.split_once('|').unwrap();
+                (b.to_string(), t.to_string())
+            };
+            format!("{}|{}|{}|{}", hex_bytes(bytes), b, vec_reader(bytes), t)
         }
-        "conv" => {
+        "conv" | "vec" => {
             let off = num(a[1]);
             let bytes = parse_bytes(a[2]);
             let buf = Aligned::new(off, &bytes);
-            three_readers(buf.slice())
+            if buf.addr_mod16() != off % 16 {
+                return "BAD-PLACEMENT".into();
+            }
+            if a[0] == "conv" {
+                borrowed_readers(buf.slice())
+            } else {
+                vec_reader(buf.slice())
+            }
+        }
+        "semi" => {
+            let (o1, o2) = (num(a[1]), num(a[2]));
+            let ib = Aligned::new(o1, &parse_bytes(a[3]));
+            let bp = Aligned::new(o2, &parse_bytes(a[4]));
+            if ib.addr_mod16() != o1 % 16 || bp.addr_mod16() != o2 % 16 {
+                return "BAD-PLACEMENT".into();
+            }
+            let show = |ib: Vec<u64>, bp: Vec<u64>| format!("{};{}", hex_words(&ib), hex_words(&bp));
+            format!(
+                "{}|{}",
+                caught(
+                    || succinctly::json::standard::SemiIndex::from_bytes(ib.slice(), bp.slice()),
+                    |x| show(x.ib, x.bp)
+                ),
+                caught(
+                    || succinctly::json::simple::SemiIndex::from_bytes(ib.slice(), bp.slice()),
+                    |x| show(x.ib, x.bp)
+                ),
+            )
         }
         "json" => {
-            let text = parse_bytes(a[1]);
+            let off = num(a[1]);
+            let text = parse_bytes(a[2]);
             let Ok(orig) = catch_unwind(|| JsonIndex::build(&text)) else { return "BUILD-PANIC".into() };
             let (ib_len, bp_len) = (orig.ib_len(), orig.bp().len());
-            let ib = reload(orig.ib());
-            let bp = reload(orig.bp().words());
+            // serialized parts placed at the requested offset (owned readers) and aligned (borrowed readers)
+            let ib_o = reload(off, orig.ib());
+            let bp_o = reload((off + 4) % 16, orig.bp().words());
+            let ib = reload(0, orig.ib());
+            let bp = reload(0, orig.bp().words());
             let d0 = digest_of(|d| json_battery(&orig, &text, d));
             let d1 = digest_of(|d| {
                 let owned = JsonIndex::from_parts(
-                    binary::bytes_to_words_vec(ib.slice()),
+                    binary::bytes_to_words_vec(ib_o.slice()),
                     ib_len,
-                    binary::bytes_to_words_vec(bp.slice()),
+                    binary::bytes_to_words_vec(bp_o.slice()),
                     bp_len,
                 );
+                json_battery(&owned, &text, d)
+            });
+            let d1b = digest_of(|d| {
+                // through SemiIndex::from_bytes (json::standard), then from_parts
+                let semi = succinctly::json::standard::SemiIndex::from_bytes(ib_o.slice(), bp_o.slice());
+                let owned = JsonIndex::from_parts(semi.ib, ib_len, semi.bp, bp_len);
                 json_battery(&owned, &text, d)
             });
             let d2 = digest_of(|d| {
@@ -232,35 +294,40 @@ pub fn exec(a: &[&str]) -> String {
                 json_battery(&borrowed, &text, d)
             });
             let d3 = digest_of(|d| {
-                // try_ form + the Option it returns
                 let ibw = binary::try_bytes_to_words(ib.slice()).expect("multiple of 8");
                 let bpw = binary::try_bytes_to_words(bp.slice()).expect("multiple of 8");
                 let borrowed: JsonIndex<&[u64]> = JsonIndex::from_parts(ibw, ib_len, bpw, bp_len);
                 json_battery(&borrowed, &text, d)
             });
-            // SemiIndex::{ib,bp}_as_bytes / from_bytes
+            // SemiIndex::{ib,bp}_as_bytes / from_bytes of both index kinds, at the offset
             let semi_ok = caught(
                 || {
                     let semi = succinctly::json::standard::build_semi_index(&text);
-                    let ib2 = Aligned::new(0, semi.ib_as_bytes());
-                    let bp2 = Aligned::new(0, semi.bp_as_bytes());
+                    let ib2 = Aligned::new(off, semi.ib_as_bytes());
+                    let bp2 = Aligned::new((off + 4) % 16, semi.bp_as_bytes());
                     let back = succinctly::json::standard::SemiIndex::from_bytes(ib2.slice(), bp2.slice());
-                    back.ib == semi.ib && back.bp == semi.bp
+                    let simple = succinctly::json::simple::build_semi_index(&text);
+                    let ib3 = Aligned::new(off, simple.ib_as_bytes());
+                    let bp3 = Aligned::new((off + 4) % 16, simple.bp_as_bytes());
+                    let back3 = succinctly::json::simple::SemiIndex::from_bytes(ib3.slice(), bp3.slice());
+                    back.ib == semi.ib && back.bp == semi.bp && back3.ib == simple.ib && back3.bp == simple.bp
                 },
                 |b| b.to_string(),
             );
             if semi_ok != "true" {
-                return format!("DIFF semi-index from_bytes: {semi_ok}");
+                return format!("DIFF semi-index from_bytes at offset {off}: {semi_ok}");
             }
-            verdict(&[("orig", d0), ("owned", d1), ("borrowed", d2), ("try", d3)])
+            verdict(&[("orig", d0), ("owned", d1), ("owned-via-semi", d1b), ("borrowed", d2), ("try", d3)])
         }
         "bp" => {
-            let ws = parse_words(a[1]);
-            let len = num(a[2]);
+            let off = num(a[1]);
+            let ws = parse_words(a[2]);
+            let len = num(a[3]);
             let Ok(orig) = catch_unwind(|| BalancedParens::new(ws.clone(), len)) else { return "BUILD-PANIC".into() };
-            let ser = reload(orig.words());
+            let ser_o = reload(off, orig.words());
+            let ser = reload(0, orig.words());
             let d0 = digest_of(|d| bp_battery(&orig, d));
-            let d1 = digest_of(|d| bp_battery(&BalancedParens::from_words(binary::bytes_to_words_vec(ser.slice()), len), d));
+            let d1 = digest_of(|d| bp_battery(&BalancedParens::from_words(binary::bytes_to_words_vec(ser_o.slice()), len), d));
             let d2 = digest_of(|d| {
                 let b: BalancedParens<&[u64]> = BalancedParens::from_words(binary::bytes_to_words(ser.slice()), len);
                 bp_battery(&b, d)
@@ -268,10 +335,11 @@ pub fn exec(a: &[&str]) -> String {
             verdict(&[("orig", d0), ("owned", d1), ("borrowed", d2)])
         }
         "bv" => {
-            let ws = parse_words(a[1]);
-            let len = num(a[2]);
+            let off = num(a[1]);
+            let ws = parse_words(a[2]);
+            let len = num(a[3]);
             let Ok(orig) = catch_unwind(|| BitVec::from_words(ws.clone(), len)) else { return "BUILD-PANIC".into() };
-            let ser = reload(orig.words());
+            let ser = reload(off, orig.words());
             let battery = |b: &BitVec, d: &mut Digest| {
                 d.put(b.len() as u64);
                 d.put(b.count_ones() as u64);
@@ -405,36 +473,72 @@ fn gen_balanced(r: &mut Rng, pairs: usize) -> (Vec<u64>, usize) {
     (ws, len)
 }
 
+/// Byte contents.  Kinds 4.. have pairwise distinct bytes within any 256-byte window (an affine
+/// walk `start + j·odd mod 256`), so every word has 8 distinct bytes and two distinct halves.
+fn fill_bytes(r: &mut Rng, len: usize, kind: u64) -> Vec<u8> {
+    let start = r.byte();
+    let step = r.byte() | 1;
+    (0..len)
+        .map(|j| match kind {
+            0 => 0,
+            1 => 0xFF,
+            2 => r.byte(),
+            3 => if r.chance(1, 2) { 0 } else { r.byte() },
+            _ => start.wrapping_add((j as u8).wrapping_mul(step)),
+        })
+        .collect()
+}
+
 pub fn gen(tier: Tier, r: &mut Rng, emit: &mut dyn FnMut(String)) {
     let q = tier == Tier::Quick;
-    // --- conv: every length residue × every alignment offset, exhaustively for short strings
-    for len in 0..=33usize {
-        for a in 0..8usize {
-            let bytes: Vec<u8> = (0..len).map(|_| r.byte()).collect();
-            emit(format!("C31 conv {a} {}", hex_bytes(&bytes)));
+    // --- every reader × every placement 0..15 (relative to a 16-aligned base) × short lengths,
+    //     exhaustively: 0, 1, 2, odd / even word counts and every bad length in between; contents with
+    //     pairwise distinct bytes, so that any permutation / half-swap / byte-swap of a word shows
+    for len in 0..=41usize {
+        for off in 0..16usize {
+            let bytes = fill_bytes(r, len, 4);
+            emit(format!("C31 conv {off} {}", hex_bytes(&bytes)));
+            emit(format!("C31 vec {off} {}", hex_bytes(&bytes)));
         }
+    }
+    for nw in [0usize, 1, 2, 3, 4, 7, 8, 9, 16, 17] {
+        for o1 in 0..16usize {
+            let o2 = (o1 * 5 + 3) % 16;
+            let ib = fill_bytes(r, nw * 8, 4);
+            let bp = fill_bytes(r, (nw + nw % 3) * 8, 5);
+            emit(format!("C31 semi {o1} {o2} {} {}", hex_bytes(&ib), hex_bytes(&bp)));
+        }
+    }
+    for o in 0..16usize {
+        // documented panics: a bad length in either part
+        emit(format!("C31 semi {o} {} {} {}", 15 - o, hex_bytes(&fill_bytes(r, 12, 4)), hex_bytes(&fill_bytes(r, 8, 4))));
+        emit(format!("C31 semi {o} {} {} {}", 15 - o, hex_bytes(&fill_bytes(r, 16, 4)), hex_bytes(&fill_bytes(r, 7, 4))));
     }
     let n_conv = if q { 3000 } else { 40_000 };
     for i in 0..n_conv {
         // large slices are rare: the compiled model costs ~25 µs per byte
         let len = match r.below(64) {
-            0..=7 => 8 * r.usize_below(80),
-            8..=15 => 8 * r.usize_below(80) + 1 + r.usize_below(7),
-            16 => if r.chance(1, 20) { 65536 } else { *r.pick(&[4096usize, 4095, 4097, 4104]) },
+            0..=15 => 8 * r.usize_below(80),
+            16..=19 => 8 * r.usize_below(80) + 1 + r.usize_below(7),
+            20 => if r.chance(1, 20) { 65536 } else { *r.pick(&[4096usize, 4095, 4097, 4104]) },
+            21..=40 => 8 * r.usize_below(9),
             _ => r.usize_below(72),
         };
         let len = if q { len.min(4104) } else { len };
-        let a = if i % 3 == 0 { 0 } else { r.usize_below(8) };
-        let fill = r.below(4);
-        let bytes: Vec<u8> = (0..len)
-            .map(|j| match fill {
-                0 => 0,
-                1 => 0xFF,
-                2 => j as u8,
-                _ => r.byte(),
-            })
-            .collect();
-        emit(format!("C31 conv {a} {}", hex_bytes(&bytes)));
+        let off = if i % 5 == 0 { 0 } else { r.usize_below(16) };
+        let fill = r.below(8);
+        let bytes = fill_bytes(r, len, fill);
+        match i % 4 {
+            0 => emit(format!("C31 conv {off} {}", hex_bytes(&bytes))),
+            1 | 2 => emit(format!("C31 vec {off} {}", hex_bytes(&bytes))),
+            _ => {
+                let o2 = r.usize_below(16);
+                let nbp = 8 * r.usize_below(12);
+                let bp = fill_bytes(r, nbp, fill);
+                let ib = &bytes[..bytes.len().min(512)];
+                emit(format!("C31 semi {off} {o2} {} {}", hex_bytes(ib), hex_bytes(&bp)));
+            }
+        }
     }
     // --- w2b: word vectors
     let n_w = if q { 3000 } else { 40_000 };
@@ -466,7 +570,7 @@ pub fn gen(tier: Tier, r: &mut Rng, emit: &mut dyn FnMut(String)) {
             }
             t.push(b']');
         }
-        emit(format!("C31 json {}", hex_bytes(&t)));
+        emit(format!("C31 json {} {}", i % 16, hex_bytes(&t)));
     }
     // --- rebuilt indexes: balanced parentheses and plain bit vectors
     let n_b = if q { 400 } else { 8000 };
@@ -488,12 +592,12 @@ pub fn gen(tier: Tier, r: &mut Rng, emit: &mut dyn FnMut(String)) {
                 gen_balanced(r, pairs)
             }
         };
-        emit(format!("C31 bp {} {len}", hex_words(&ws)));
+        emit(format!("C31 bp {} {} {len}", (i / 5 + i) % 16, hex_words(&ws)));
     }
     for i in 0..n_b {
         let n = if i % 9 == 0 { r.usize_below(600) } else { r.usize_below(24) };
         let ws: Vec<u64> = (0..n).map(|_| gen_word(r)).collect();
         let len = if n == 0 || r.chance(1, 3) { n * 64 } else { (n - 1) * 64 + 1 + r.usize_below(64) };
-        emit(format!("C31 bv {} {len}", hex_words(&ws)));
+        emit(format!("C31 bv {} {} {len}", (i * 7 + 4) % 16, hex_words(&ws)));
     }
 }
